@@ -336,7 +336,7 @@ def check_counts(ad, prefix, case_of, rng):
 # =====================================================================
 # Gillespie_complex_contagion (C15)
 # =====================================================================
-COMPLEX_MODELS = ("sir_rates", "sis_rates", "threshold", "longrange", "chooser", "nodew", "binary01", "seir_rates")
+COMPLEX_MODELS = ("sir_rates", "sis_rates", "threshold", "longrange", "chooser", "nodew", "binary01", "seir_rates", "lazy")
 
 
 def _nbrs(G, node):
@@ -406,6 +406,23 @@ def make_complex_model(name, params):
         def choose(G, node, status, parameters):
             return "I" if status[node] == "S" else "S"
         return rate, choose, (lambda G, node, status, parameters: _two_hop(G, node)), ["S", "I"]
+    if name == "lazy":
+        # the chooser may answer the node's CURRENT status (a failed attempt): the event happens,
+        # takes its exponential time, and changes nothing
+        def rate(G, node, status, parameters):
+            tau, gamma = parameters[0], parameters[1]
+            if status[node] == "I":
+                return gamma
+            if status[node] == "S":
+                return tau * (0.5 + len([x for x in G.neighbors(node) if status[x] == "I"]))
+            return 0
+
+        def choose(G, node, status, parameters):
+            if status[node] == "I":
+                return "S"
+            k = len([x for x in G.neighbors(node) if status[x] == "I"])
+            return "I" if k % 2 == 1 else "S"      # an even number of infectious neighbours: the attempt fails
+        return rate, choose, (lambda G, node, status, parameters: _nbrs(G, node)), ["S", "I"]
     if name == "binary01":
         # integer statuses 1 (active) / 0 (inactive): the chooser's answer 0 is falsy
         def rate(G, node, status, parameters):
@@ -487,8 +504,8 @@ class ComplexRef(object):
         return tuple(s)
 
 
-def gen_complex_case(rng):
-    model = rng.choice(COMPLEX_MODELS)
+def gen_complex_case(rng, model=None):
+    model = model or rng.choice(COMPLEX_MODELS)
     label = rng.choice(cases.LABEL_SCHEMES)
     spec = cases.gen_graph(rng, 1, 6, directed=False, label=label,
                            node_w=rng.choice(["tenth", "dyadic", "twolevel", "wide"]))
@@ -637,11 +654,13 @@ def check_complex_rows_and_spies(ad, prefix, case_of, rng):
         if not same_g or tuple(params) != tuple(ad.params):
             return [walks.V("callback_args", "%s/callback-args" % ad.name,
                             "%s callback got G is caller's=%r parameters=%r" % (kind, same_g, params), case_of(prefix))]
-        # a callback sees state k or (chooser runs before the update) moves on to k+1
-        if tup == states[k]:
-            continue
-        if k + 1 < len(states) and tup == states[k + 1]:
-            k += 1
+        # a callback sees the current history state or a later one (never an earlier one again);
+        # consecutive history states can be equal (an event that changes nothing)
+        j = k
+        while j < len(states) and states[j] != tup:
+            j += 1
+        if j < len(states) and j - k <= 1 + sum(1 for a, b in zip(states[k:], states[k + 1:]) if a == b):
+            k = j
             continue
         return [walks.V("stale_status", "%s/callback-saw-stale-statuses" % ad.name,
                         "%s(%r) was evaluated on statuses %r; history states around it: %r"
